@@ -1,5 +1,6 @@
 use std::io::{Seek, SeekFrom, Write};
 
+use crate::bsp::{BspAxisType, BspNodeExt};
 use crate::chunk::ChunkHeader;
 use crate::error::Result;
 use crate::parser::chunks;
@@ -931,41 +932,23 @@ impl WmoWriter {
         header.write(writer)?;
 
         for node in nodes {
-            // Write plane normal and flags packed into first float
-            let plane_flags;
-            let plane_normal_x;
-
-            // Encode the normal into the first float and flags
-            if node.plane.normal.x.abs() > 0.999 {
-                plane_flags = 0; // X axis
-                plane_normal_x = f32::from_bits(plane_flags);
-            } else if node.plane.normal.y.abs() > 0.999 {
-                plane_flags = 1; // Y axis
-                plane_normal_x = f32::from_bits(plane_flags);
-            } else if node.plane.normal.z.abs() > 0.999 {
-                plane_flags = 2; // Z axis
-                plane_normal_x = f32::from_bits(plane_flags);
-            } else {
-                plane_flags = 3; // Custom normal
-
-                // Encode x component into the upper 30 bits
-                let x_encoded = (node.plane.normal.x * 32767.0) as i32;
-                plane_normal_x = f32::from_bits((x_encoded << 2 | plane_flags as i32) as u32);
+            // CAaBspNode: flags (split axis in the low two bits, 0x4 = leaf), negative
+            // and positive child, face count, index of the first face, plane distance
+            let mut flags: u16 = match node.get_axis_type() {
+                BspAxisType::X | BspAxisType::Other => 0,
+                BspAxisType::Y => 1,
+                BspAxisType::Z => 2,
+            };
+            if node.is_leaf() {
+                flags |= 0x4;
             }
 
-            if plane_flags < 3 {
-                writer.write_u32_le(plane_flags)?;
-            } else {
-                writer.write_f32_le(plane_normal_x)?;
-            }
-
-            writer.write_f32_le(node.plane.distance)?;
-
+            writer.write_u16_le(flags)?;
             writer.write_i16_le(node.children[0])?;
             writer.write_i16_le(node.children[1])?;
-
-            writer.write_u16_le(node.first_face)?;
             writer.write_u16_le(node.num_faces)?;
+            writer.write_u32_le(node.first_face as u32)?;
+            writer.write_f32_le(node.plane.distance)?;
         }
 
         Ok(())
